@@ -63,6 +63,8 @@ def main():
     ap.add_argument("--n", type=int, default=30)
     a = ap.parse_args()
 
+    from sim import entropy
+    entropy.install("boot")      # OS entropy behind a seam before persim (and the zygote) exist
     import numpy as np
     np.seterr(all="ignore")      # floating-point warnings of the code under test are not errors; results are unchanged
     import persim  # noqa: F401  (fails loudly if the tree does not import)
